@@ -331,6 +331,14 @@ def extend (a : ArrS) (axis : Int) (extra : Leg) : Option ArrS :=
   | none => none
   | some k => some { a with legs := setLeg a.legs k (.plain ((a.legAt k).extend extra)) }
 
+/-- `a.legs[k] = a.legs[k].flip_charges_qconj()` (as done in `mpo.py`): same physical charges, so rows and
+`qtotal` stay; a pipe is replaced by `outer_conj()` (its incoming legs are kept) -/
+def flipLeg (a : ArrS) (k : Nat) : Option ArrS :=
+  match a.legs[k]? with
+  | none => none
+  | some (.plain l) => some { a with legs := setLeg a.legs k (.plain l.flipChargesQconj) }
+  | some (.pipe p) => some { a with legs := setLeg a.legs k (.pipe p.outerConj) }
+
 /-- `gauge_total_charge(axis, newqtotal, new_qconj)` -/
 def gaugeTotalCharge (a : ArrS) (axis : Int) (newq : Option Charge) (newQconj : Option Int) : Option ArrS :=
   match a.legIndex axis with
